@@ -799,14 +799,20 @@ class Ctx:
         i = len(self.trace)
         if i >= self.max_decisions:
             raise Abort("more than %d decisions on one path" % self.max_decisions)
+        memo = self.__dict__.setdefault("_dmemo", {})
         if i < len(self.prefix):
             t = self.prefix[i]
+            memo[cond.get_id()] = (bool(t & 1), cond)
         else:
             cs = z3.simplify(cond)
+            hit = memo.get(cond.get_id())
             if z3.is_true(cs):
                 t = 3
             elif z3.is_false(cs):
                 t = 2
+            elif hit is not None:
+                # decided earlier on this path: it (or its negation) is implied by the path condition, which only grows
+                t = 3 if hit[0] else 2
             else:
                 rt = self.check(cond)
                 if rt == "unknown":
@@ -826,6 +832,7 @@ class Ctx:
                         t = 3
         self.trace.append(t)
         d = bool(t & 1)
+        memo[cond.get_id()] = (d, cond)
         if t < 2:
             self._activate(cond)
             self.solver.add(cond if d else z3.Not(cond))
